@@ -44,7 +44,4 @@ pub enum AstExpr {
     Number { n: Number, unit: Unit },
     Other,
 }
-impl AstExpr {
-    #[verifier::external_body]
-    pub fn span(self, span: Span) -> Spanned<AstExpr> { unimplemented!() }
-}
+// `AstExpr::span` is not declared here: unit value_calc proves the real one, value_parens declares it
